@@ -1,6 +1,7 @@
 import SpecKitV.Props.AnalysisGen
 import SpecKitV.Lemmas.AnalyzerGlue
 import SpecKitV.Props.C01
+import SpecKitV.Props.LpsdCoreGen
 import SpecKitV.Props.C05
 
 #print axioms gen_single_bin_seg_eq_model
@@ -24,6 +25,33 @@ import SpecKitV.Props.C05
 #print axioms stats_detrend0_auto_eq_ref
 #print axioms stats_poly_csd_eq_ref
 #print axioms stats_poly_auto_eq_ref
+#print axioms LpsdCoreGen.gen_build_window_spec
+#print axioms LpsdCoreGen.gen_build_window_flag
+#print axioms LpsdCoreGen.gen_lpsd_core_step
+#print axioms LpsdCoreGen.gen_lpsd_core_fold
+#print axioms LpsdCoreGen.gen_lpsd_core_rows
+#print axioms LpsdCoreGen.gen_lpsd_core_raises_iff
+#print axioms LpsdCoreGen.dispatchWith_numba
+#print axioms LpsdCoreGen.genCuda6_eq_genNumba6
+#print axioms LpsdCoreGen.dispatchWith_genFamily
+#print axioms LpsdCoreGen.gen_lpsd_core_eq_model
+#print axioms LpsdCoreGen.gen_lpsd_core_sums
+#print axioms LpsdCoreGen.gen_lpsd_core_eq_ref_cross
+#print axioms LpsdCoreGen.gen_lpsd_core_eq_ref_auto
+#print axioms LpsdCoreGen.gen_lpsd_core_bin_local
+#print axioms LpsdCoreGen.gen_lpsd_core_band
+#print axioms LpsdCoreGen.gen_lpsd_core_order1_add_line_auto
+#print axioms LpsdCoreGen.lpsdWindow_kaiser
+#print axioms LpsdCoreGen.lpsdWindow_kaiser_dft_even
+#print axioms LpsdCoreGen.lpsdWindow_other
+#print axioms LpsdCoreGen.gen_single_window
+#print axioms LpsdCoreGen.gen_single_bin_section_eq_model
+#print axioms LpsdCoreGen.gen_single_bin_eq_lpsdCore
+#print axioms LpsdCoreGen.gen_plan_validate_arrays
+#print axioms LpsdCoreGen.gen_plan_validate_eq_model
+#print axioms LpsdCoreGen.gen_plan_validate_accepts_safe
+#print axioms LpsdCoreGen.gen_plan_band_eq_model
+#print axioms LpsdCoreGen.gen_plan_band_none
 #print axioms lpsdCore_eq_ref_cross
 #print axioms lpsdCore_eq_ref_auto
 #print axioms lpsdCore_bin_local
